@@ -41,19 +41,38 @@ BadAt(j) == NItem("refused", Bad[j], <<>>, -1)
 \* every character U+0001..U+00FF as the only digit and as the second digit of the prefix (an argument cannot contain
 \* NUL): exactly the 22 hexadecimal digits are digits - not their neighbours in ASCII, not control characters that
 \* differ from a digit in one bit, not Latin-1 letters
-NEveryChar == 2 * 255
+NEveryChar == 2 * NTryChars
 EveryCharAt(j) ==
-  LET cp == 1 + ((j - 1) % 255)
+  LET cp == TryChar(1 + ((j - 1) % NTryChars))
       \* (as a second digit a hexadecimal digit gives a valid two-digit prefix: those searches belong to the family "two")
-      pre == IF j <= 255 \/ IsHexCode(cp) THEN "0x" ELSE "0xa"
+      pre == IF j <= NTryChars \/ IsHexCode(cp) THEN "0x" ELSE "0xa"
   IN  NItem("every_character", New("", pre \o CpsToStr(<<cp>>), "", "", "", IF j % 2 = 0 THEN "1" ELSE "0"), <<>>, -1)
+\* LONG prefixes (4 .. 40 digits), feasible because the specification chooses the entropy: the prefix is the beginning of
+\* the address of a spec-made target phrase; the shim's schedule feeds the inline search (-j 0) many unrelated
+\* candidates first and the target last.  Only the target may be printed.
+LongDigits == <<4, 4, 5, 6, 8, 20, 39, 40>>
+NLong == Len(LongDigits)
+LongAt(j) ==
+  LET L     == LongDigits[j]
+      cfg0  == [vanity |-> TRUE, threads |-> 0, nibbles |-> <<>>, vpassword |-> <<>>, words |-> 12, comps |-> ForIndex(<<>>)]
+      tgt   == Prng(K("longtgt", <<j>>), 16)
+      addr  == AddressOfPhrase(cfg0, PhraseOfEntropy(tgt))
+      hexd  == HexLower(addr)
+      \* mixed case: every second letter upper-case
+      pre   == "0x" \o Utf8ToStr([i \in 1..L |-> IF IsLowerHexCode(hexd[i]) /\ i % 2 = 0 THEN hexd[i] - 32 ELSE hexd[i]])
+      nBefore == IF L <= 5 THEN (IF Thorough THEN 3000 ELSE 1200) ELSE 150
+      c     == New("12", pre, "", "", "", "0")
+      it    == NItem("long_prefix_scheduled", c, <<>>, -1)
+      sched == [i \in 1..(nBefore + 1) |-> [ord |-> 0, rc |-> 0, hex |-> BytesToHex(IF i <= nBefore THEN Prng(K("longc", <<j, i>>), 16) ELSE tgt)]]
+  IN  [it EXCEPT !.in = [@ EXCEPT !.shim = [schedule |-> sched], !.timeout_ms = 120000]]
 O1 == NSingle
 O2 == O1 + NTwo
 O3 == O2 + NThree
 O4 == O3 + NVariants
 O5 == O4 + NRepeat
 O6 == O5 + Len(Bad)
-Count == O6 + NEveryChar
+O7 == O6 + NEveryChar
+Count == O7 + NLong
 ItemAt(g) ==
   IF g <= O1 THEN SingleAt(g)
   ELSE IF g <= O2 THEN TwoAt(g - O1)
@@ -61,7 +80,9 @@ ItemAt(g) ==
   ELSE IF g <= O4 THEN VariantAt(g - O3)
   ELSE IF g <= O5 THEN RepeatAt(g - O4)
   ELSE IF g <= O6 THEN BadAt(g - O5)
-  ELSE EveryCharAt(g - O6)
+  ELSE IF g <= O7 THEN EveryCharAt(g - O6)
+  ELSE LongAt(g - O7)
+Histories == 0
 VARIABLE n
 INSTANCE GenBase
 =============================================================================
